@@ -1,7 +1,7 @@
 import random
 
 import families
-from runner import Harness, FUNC
+from runner import Harness, FUNC, FULL
 from . import Plan, register, COMMON_TRUSTED
 from .c01 import FILL_STUB
 
@@ -12,18 +12,31 @@ def plan(ctx):
     fam = families.c05_family()
     groups = {}
     for m in fam:
-        groups.setdefault((m["kind"], m["rate"], m.get("cross")), []).append(m)
+        if not m["kind"].endswith("reset_state"):
+            groups.setdefault((m["kind"], m["rate"], m.get("cross")), []).append(m)
     quick = set()
     for key, ms in sorted(groups.items(), key=str):
         n = 1 if key[0].startswith("dec") else 2
         for m in rnd.sample(ms, min(n, len(ms))):
             quick.add(m["name"])
+    miss = [m for m in fam if m["kind"] == "dec_after_reset" and m["rate"] == "high" and bin(m["rm"]).count("1") < m["r"]]
+    quick.add(rnd.choice(miss)["name"])
+    quick.add(rnd.choice([m for m in fam if m["kind"] == "dec_rdr" and bin(m["rm"]).count("1") < m["r"] and m["rate"] == "high"])["name"]) if any(m["kind"] == "dec_rdr" and bin(m["rm"]).count("1") < m["r"] and m["rate"] == "high" for m in fam) else None
     hs = []
     for m in fam:
         R = "High" if m["rate"] == "high" else "Low"
         tiers = ("quick", "thorough") if m["name"] in quick else ("thorough",)
         stubs = [FILL_STUB] if m.get("stub") else []
         side = "Encoder" if m["kind"].startswith("enc") else "Decoder"
+        if m["kind"].endswith("reset_state"):
+            pass
+        if m["kind"].endswith("reset_state"):
+            a = m["a"]
+            hs.append(Harness(f"gen::c05g::{m['name']}", "C05",
+                              f"{a[0]}-rate {side.lower()} ({a[1]},{a[2]},{a[3]} bytes) with shards added but no round run, then {'reset' if not m['cross'] else 'into_parts -> new(Some(work))'} to {m['rate']}-rate {m['b']}: configuration, layout and counters equal a freshly constructed codec and NO received bit survives (growing and shrinking bitmaps)",
+                              encodes=[f"{side}Work::reset", "FixedBitSet::clear/grow", "Shards::resize", "into_parts / new(Some(work))"], bounds="concrete configuration pair; unwind 40",
+                              flags=FULL, timeout=900, mem_gb=6, symbolic="shard bytes", tiers=("quick", "thorough")))
+            continue
         if m["kind"].endswith("after_reset"):
             a = m["a"]
             how = "reset" if not m["cross"] else "into_parts -> new(Some(work)) across rates"
